@@ -3,6 +3,7 @@ import RsModel.Lemmas.AttrTree
 import RsModel.Lemmas.ReplaceKeeps
 import RsModel.Lemmas.ReplaceAdvance
 import RsModel.Lemmas.WellDeclDecl
+import RsModel.Lemmas.ReplaceNames
 /-!
 # C06 — composites preserve what their children attribute
 (the index-translation tables every composite relies on; attribution itself is tied by correspondence)
@@ -113,5 +114,20 @@ theorem c06_replace_advance (st : RSt) (chunk : Text) (hne : chunk ≠ []) (m : 
     ∀ t mm, Ev.chunk t mm ∈ (rOnChunk st chunk m).2 →
       ∃ p, p < chunk.length ∧ ∃ y, mm.orig = some y ∧ y.src = a.src ∧ y.line = a.line ∧ y.col = a.col + p :=
   rOnChunk_adv st chunk hne m a hm hfm
+
+/-- **C06, ReplaceSource, names**: a chunk a ReplaceSource delivers with a name carries — through the names the ReplaceSource itself
+announces — either the name the inner stream announced for the inner chunk it was cut from (or its replacement content was spliced
+into), or the name given with one of the replacements.  (Invariant `RN` on `name_mapping` / `name_index_mapping`; the inner stream
+announces its names before use, densely: C11.) -/
+theorem c06_replace_names (sorted : List Repl) (inner : SResult) (hd : DeclOK 0 0 inner.evs) :
+    ∀ t' mm, Ev.chunk t' mm ∈ (replaceStream sorted inner).evs → ∀ y, mm.orig = some y → ∀ k, y.name = some k →
+      (∃ t m a i, Ev.chunk t m ∈ inner.evs ∧ m.orig = some a ∧ a.name = some i
+          ∧ (annN (replaceStream sorted inner).evs)[k]? = (annN inner.evs)[i]? ∧ i < (annN inner.evs).length)
+      ∨ (∃ r ∈ sorted, ∃ nm, r.name = some nm ∧ (annN (replaceStream sorted inner).evs)[k]? = some nm) :=
+  replaceStream_names sorted inner hd
+
+/-- non-vacuity: replacing `b` in `a b` (an OriginalSource has no names) by `X` with the name `nm` delivers `X` under a name index that the
+ReplaceSource announces as `nm` -/
+example : annN (replaceStream (sortRepls [⟨2, 3, [88], some [110, 109], 1⟩]) (streamOriginal [97, 32, 98] [102] ⟨true, false⟩)).evs = [[110, 109]] := by decide
 
 end Rs
